@@ -1,5 +1,7 @@
 import PlasVerif.Driver.Util
 import PlasVerif.Spec.BoolExpr
+import PlasVerif.Model.IfThenNum
+import PlasVerif.Spec.Numeral
 namespace PlasVerif.Driver.C19
 open PlasVerif.Driver PlasVerif.Model.IfThen PlasVerif.Spec.BoolExpr
 
@@ -22,6 +24,22 @@ def resStr : Except Err Bool → String
 def rel? : String → Option Rel
   | "<" => some .lt | ">" => some .gt | "=" => some .eq | _ => none
 
+/-- an operand word: `_` stands for a blank (`-_3` is `- 3`) -/
+def operandChars (w : String) : List Char := w.toList.map fun c => if c = '_' then ' ' else c
+
+def readOperand (w : String) : Option Int := readSigned (operandChars w)
+
+/-- spec-side reading of an operand word as ⟨signs⟩⟨digits⟩ (independent of `readSigned`): `none` = not of that shape -/
+def specOperand (w : String) : Option Int :=
+  let rec signs : List Char → List PlasVerif.Spec.Numeral.Sign → List PlasVerif.Spec.Numeral.Sign × List Char
+    | '+' :: r, acc => let k := (r.takeWhile (· = '_')).length; signs (r.drop k) (acc ++ [⟨false, k⟩])
+    | '-' :: r, acc => let k := (r.takeWhile (· = '_')).length; signs (r.drop k) (acc ++ [⟨true, k⟩])
+    | r, acc => (acc, r)
+  termination_by l => l.length
+  decreasing_by all_goals (simp only [List.length_drop, List.length_cons]; omega)
+  let (sg, ds) := signs w.toList []
+  if ds ≠ [] ∧ ds.all Char.isDigit then some (PlasVerif.Spec.Numeral.denote sg (ds.map fun c => c.toNat - 48)) else none
+
 /- prefix encoding of trees:  expr ::= A atom | & expr atom | | expr atom
    atom ::= L1 | L0 | C int rel int | P expr | N atom -/
 mutual
@@ -35,7 +53,7 @@ def parseAtom : Nat → List String → Option (Atom × List String)
   | 0, _ => none
   | _ + 1, "L1" :: r => some (.lit true, r)
   | _ + 1, "L0" :: r => some (.lit false, r)
-  | _ + 1, "C" :: a :: rel :: b :: r => do pure (.cmp (← a.toInt?) (← rel? rel) (← b.toInt?), r)
+  | _ + 1, "C" :: a :: rel :: b :: r => do pure (.cmp (← readOperand a) (← rel? rel) (← readOperand b), r)
   | f + 1, "P" :: r => do let (e, r) ← parseExpr f r; pure (.paren e, r)
   | f + 1, "N" :: r => do let (a, r) ← parseAtom f r; pure (.neg a, r)
   | _, _ => none
@@ -48,6 +66,11 @@ def handle : List String → String
       let toks := e.lin
       s!"{resStr (evaluate toks)}\tok:{boolStr e.den}\t{joinSp (toks.map tokStr)}"
     | _ => "bad-op"
+  | ["num", w] =>
+    let shown : Option Int → String := fun | some n => s!"ok:{n}" | none => "none"
+    match specOperand w with
+    | some n => s!"{shown (readOperand w)}\tok:{n}"
+    | none => s!"{shown (readOperand w)}\t-"
   | "rpn" :: ws =>
     match ws.mapM tok? with
     | some toks => s!"{resStr (evaluate toks)}\t-"
